@@ -474,6 +474,43 @@ func runC20(o *out, thorough bool, r *rng, _ []string) map[string]interface{} {
 		}
 		o.count("rebuild-in-place")
 	}
+	// datagrams with bytes after the declared length (Decode tolerates them): a Message warm for such a datagram
+	// decodes it again without allocating; and the cycle "decode it, add FINGERPRINT / MESSAGE-INTEGRITY (which
+	// cut the trailing bytes)" allocates nothing once warm
+	for i := 0; i < 40; i++ {
+		msg := r.validMessage(1+r.intn(4), 12)
+		data := append(append([]byte(nil), msg...), r.bytes(1+r.intn(40))...)
+		m := new(stun.Message)
+		if stun.Decode(data, m) != nil || stun.Decode(data, m) != nil {
+			continue
+		}
+		every := true
+		for rep := 0; rep < 3 && every; rep++ {
+			every = mallocs(func() { _ = stun.Decode(data, m) }) > 0
+		}
+		if every {
+			o.failFor("C20", "warm-op-allocates", fmt.Sprintf("x a Message warm for the datagram %s (a message followed by %d more bytes) allocates on every further Decode of it", fHex(data), len(data)-len(msg)))
+		}
+		key := r.bytes(16)
+		cycle := func() {
+			_ = stun.Decode(data, m)
+			if i%2 == 0 {
+				_ = stun.Fingerprint.AddTo(m)
+			} else {
+				_ = stun.MessageIntegrity(key).AddTo(m)
+			}
+		}
+		cycle()
+		cycle()
+		every = true
+		for rep := 0; rep < 3 && every; rep++ {
+			every = mallocs(cycle) > 0
+		}
+		if every {
+			o.failFor("C20", "warm-op-allocates", fmt.Sprintf("x the cycle Decode(%s) (a message followed by %d more bytes), then %s, allocates every time on a warm Message", fHex(data), len(data)-len(msg), []string{"Fingerprint.AddTo", "MessageIntegrity.AddTo"}[i%2]))
+		}
+		o.count("datagrams-with-trailing-bytes")
+	}
 	// warm for a large message; then a small one is decoded and walked with ForEach; then the large one again:
 	// the attribute list has kept its capacity
 	for i := 0; i < 40; i++ {
